@@ -40,6 +40,8 @@ type vfSrvCfg struct {
 	AllocOptRS RequestServerOption
 	// PacketCount: the server's packet counter before Serve starts (a session that has already handled that many packets)
 	PacketCount uint32
+	// AllocTwice: the allocator option is given twice (options are applied in order; giving one twice is legal)
+	AllocTwice bool
 	// Debug (os-backed server): WithDebug(Debug)
 	Debug io.Writer
 	// BeforeServe, if set, runs after the server value has been constructed and before Serve is started
@@ -69,6 +71,9 @@ func vfServe(cfg vfSrvCfg, e *vfEnd) (*vfSrv, error) {
 			opts = append(opts, cfg.AllocOpt)
 		} else if cfg.Alloc {
 			opts = append(opts, WithAllocator())
+		}
+		if cfg.Alloc && cfg.AllocTwice {
+			opts = append(opts, opts[len(opts)-1], WithAllocator())
 		}
 		if cfg.ReadOnly {
 			opts = append(opts, ReadOnly())
@@ -104,6 +109,9 @@ func vfServe(cfg vfSrvCfg, e *vfEnd) (*vfSrv, error) {
 		} else if cfg.Alloc {
 			opts = append(opts, WithRSAllocator())
 		}
+		if cfg.Alloc && cfg.AllocTwice {
+			opts = append(opts, opts[len(opts)-1], WithRSAllocator())
+		}
 		if cfg.StartDir != "" {
 			opts = append(opts, WithStartDirectory(cfg.StartDir))
 		}
@@ -133,6 +141,14 @@ func (s *vfSrv) pktMgr() *packetManager {
 		return s.os.pktMgr
 	}
 	return s.rs.pktMgr
+}
+
+// connAlloc: the allocator the receiving side of the connection draws its pages from
+func (s *vfSrv) connAlloc() *allocator {
+	if s.os != nil {
+		return s.os.conn.alloc
+	}
+	return s.rs.conn.alloc
 }
 
 func (s *vfSrv) alloc() *allocator {
